@@ -36,6 +36,40 @@ def run(chk, tier, seed):
             for kind, w in r['bad']:
                 chk.violation(dict(obligation='C12.bounded.' + kind, tree=r['tree'], pattern=r['pattern'], fl=r['fl'], witness=w),
                               f'glob({r["pattern"]!r}, flags={r["fl"]}) on tree {r["tree"]}: {kind}: {w}', replay(r, specs))
+    # names ending in a backslash (ordinary characters under the Unix rules): NODIR drops directories only, Glob uses the regexes of the rules in force
+    import tempfile
+    import shutil
+    import os
+    from wcmatch import _wcparse as W
+    for fl, win in ((G.U, False), (G.W, True), (G.U | G.W, None)):
+        for b in (False, True):
+            g = G.Glob(b'x' if b else 'x', flags=fl)
+            isw = bool(g.flags & G.W)
+            chk.case(key=('glob-platform-regexes', fl, b))
+            if g.re_no_dir is not (W.RE_WIN_NO_DIR if isw else W.RE_NO_DIR)[1 if b else 0] or g.re_pathlib_norm is not (G._RE_WIN_PATHLIB_DOT_NORM if isw else G._RE_PATHLIB_DOT_NORM)[1 if b else 0]:
+                chk.violation(dict(obligation='C12.finite.Glob_uses_the_NODIR_and_dot-normalising_regexes_of_the_rules_in_force', tree='(none)', pattern='x', fl=globrun.LC.flagnames(fl), witness=str(b)),
+                              f'Glob({"bytes" if b else "str"} pattern, {globrun.LC.flagnames(fl)}): re_no_dir / re_pathlib_norm are not the {"Windows" if isw else "Unix"} regexes',
+                              f"import sys; sys.path.insert(0, {REPO!r})\nfrom wcmatch import glob, _wcparse\ng = glob.Glob('x', flags={fl})\nprint(g.re_no_dir.pattern)\nsys.exit(1)\n")
+    tmpb = tempfile.mkdtemp(prefix='c12-')
+    try:
+        files = ['w\\', 'x\\.', 'x\\', 'plain', '.\\']
+        for f in files:
+            open(os.path.join(tmpb, f), 'w').close()
+        os.mkdir(os.path.join(tmpb, 'dd'))
+        os.mkdir(os.path.join(tmpb, 'e\\'))
+        vis = sorted(f for f in files if not f.startswith('.'))
+        for p, fl, want in (('*', 0, sorted(vis + ['dd', 'e\\'])), ('*', G.O, vis), ('x*', G.O, ['x\\', 'x\\.']), ('**', G.G | G.O, vis), ('*', G.O | G.D, sorted(files)), ('*/', 0, ['dd/', 'e\\/'])):
+            for kw, enc in ((dict(root_dir=tmpb), False), (dict(root_dir=os.fsencode(tmpb)), True)):
+                got = sorted(G.glob(p.encode() if enc else p, flags=fl | G.U, **kw))
+                exp = [w.encode() for w in want] if enc else want
+                chk.case(key=('backslash-names', p, fl, enc))
+                if got != exp:
+                    chk.violation(dict(obligation='C12.bounded.names_ending_in_a_backslash', tree='(backslash names)', pattern=p, fl=globrun.LC.flagnames(fl), witness=str(sorted(set(got) ^ set(exp))[:1])),
+                                  f'glob({p!r}, {globrun.LC.flagnames(fl)}) on files {files} + directories dd, e\\: {got} instead of {exp}',
+                                  f"import sys, os, tempfile; sys.path.insert(0, {REPO!r})\nfrom wcmatch import glob\nd = tempfile.mkdtemp()\nfor f in {files!r}:\n    open(os.path.join(d, f), 'w').close()\nos.mkdir(d + '/dd')\n"
+                                  f"got = sorted(glob.glob({p!r}, flags={fl | G.U}, root_dir=d))\nprint(got)\nsys.exit(1)\n")
+    finally:
+        shutil.rmtree(tmpb, ignore_errors=True)
     # a root (or a literal prefix) that does not exist has no entries at all - not even the fake `.` and `..`
     for p, fl in (('./.', G.G), ('.*', G.G | G.SD), ('.', G.G), ('*', G.G), ('**', G.G | G.D), ('*/.', G.G), ('..', G.G), ('.*/', G.SD)):
         for kw, where in ((dict(root_dir='/nonexistent-root-for-c12'), 'a root_dir that does not exist'), (dict(root_dir=b'/nonexistent-root-for-c12'), 'a bytes root_dir that does not exist')):
